@@ -53,6 +53,13 @@ Theorem C01_failed_write_unchanged_refuted :
     len_N ss < 134217728 /\ sfn_live e /\ write_known_class k free ss n e /\
     dir_scan ss 0 [] false = ([], [], []) /\ dir_scan ss' 0 [] false = ([], [], [DOrphanLfn 2]).
 Proof. exact failed_write_unchanged_refuted. Qed.
+(* the same for rename (D20): the source is deleted first; a failing write leaves the directory without the source entry *)
+Theorem C01_rename_failed_unchanged_refuted :
+  exists ss src dst ss',
+    rename_in_dir upper_ascii oem_decode_lossy FixedRoot 0 ss src dst = (Err EWriteZero, ss') /\
+    map e_lfn (fst (fst (dir_scan ss 0 [] false))) = [ex_name1; [98]] /\ snd (dir_scan ss 0 [] false) = [] /\
+    map e_lfn (fst (fst (dir_scan ss' 0 [] false))) = [ex_name1] /\ snd (dir_scan ss' 0 [] false) = [DOrphanLfn 8].
+Proof. exact rename_failed_unchanged_refuted. Qed.
 Example C01_failed_write_ex :
   write_entry FixedRoot 0 ex_dir1 [47] (ex_sfn ex_alias2) = (Err EUnsupportedFileNameCharacter, ex_dir1) /\
   write_entry FixedRoot 0 ex_dir1 [] (ex_sfn ex_alias2) = (Err EInvalidFileNameLength, ex_dir1) /\
@@ -95,9 +102,11 @@ Example C01_create_entry_ex :
   fst (create_entry upper_ascii oem_decode_lossy false FixedRoot 0 ex_dir2 [66] 16 (Some 5) ex_now true) = Err EInvalidInput.
 Proof. vm_compute. repeat split. Qed.
 
-(* ---- dir_refines_map: the decoding as a finite map (key = raw short name, [dir_map]) commutes with create, with remove
-   (deleting the slots of a decoded entry) and with rename in place (delete, then write; the new key must not collide
-   with a remaining one, which check_for_existence + the alias generator establish for the library's callers) *)
+(* ---- dir_refines_map: the decoding of one directory as a finite map (key = raw short name, [dir_map]) commutes with the
+   library's create (create_file / create_dir: existence check, alias, write), remove (find by the library's own matching,
+   deletion loop) and rename within the directory (find, existence check, alias, delete, write).  [attrs_sane]: the
+   library's and the decoder's long-name-slot tests agree on every slot (they differ only on attribute bytes 0x1F, 0x2F,
+   0x3F (+0x40/0x80), which no writer produces: C01_remove_entry_insane_refuted); [bytes_ok]: slots hold bytes. *)
 Theorem C01_dir_refines_map :
   (forall upper oem fat32 k free ss n attrs cl now wd es ls range ss',
      dir_scan ss 0 [] fat32 = (es, ls, []) -> len_N ss < 134217728 ->
@@ -106,19 +115,33 @@ Theorem C01_dir_refines_map :
      exists es' ne, dir_scan ss' 0 [] fat32 = (es', ls, []) /\
        e_lfn ne = (if is_dot_name n then [] else utf16_encode n) /\ dir_map es (e_sfn ne) = None /\
        forall key, dir_map es' key = if list_eqb (e_sfn ne) key then Some ne else dir_map es key) /\
-  (forall fat32 ss es ls e,
-     dir_scan ss 0 [] fat32 = (es, ls, []) -> In e es -> NoDup (map e_sfn es) ->
-     exists es', dir_scan (mark_deleted ss (e_first_slot e) (e_sfn_slot e + 1)) 0 [] fat32 = (es', ls, []) /\
-       forall key, dir_map es' key = if list_eqb (e_sfn e) key then None else dir_map es key) /\
-  (forall k free fat32 ss n se es ls e p q ss',
-     dir_scan ss 0 [] fat32 = (es, ls, []) -> len_N ss < 134217728 -> In e es -> NoDup (map e_sfn es) -> sfn_live se ->
-     (forall x, In x es -> x <> e -> e_sfn x <> se_name se) ->
-     write_entry k free (mark_deleted ss (e_first_slot e) (e_sfn_slot e + 1)) n se = (Ok (p, q), ss') ->
-     exists es' ne, dir_scan ss' 0 [] fat32 = (es', ls, []) /\ e_sfn ne = se_name se /\
-       e_lfn ne = (if is_dot_name n then [] else utf16_encode n) /\
+  (forall upper oem fat32 ss name ne es ls ss',
+     dir_scan ss 0 [] fat32 = (es, ls, []) -> Forall attrs_sane ss ->
+     remove_entry upper oem ss name ne = (Ok tt, ss') ->
+     exists ev e es1 es2,
+       find_entry upper oem ss name None = Ok ev /\ matches upper oem name ev = true /\ Lfn.ev_raw_name ev = e_sfn e /\
+       es = es1 ++ e :: es2 /\ ss' = mark_deleted ss (e_first_slot e) (e_sfn_slot e + 1) /\
+       dir_scan ss' 0 [] fat32 = (es1 ++ es2, ls, []) /\
+       (NoDup (map e_sfn es) -> forall key, dir_map (es1 ++ es2) key = if list_eqb (e_sfn e) key then None else dir_map es key)) /\
+  (forall upper oem k free fat32 ss src dst es ls ss',
+     dir_scan ss 0 [] fat32 = (es, ls, []) -> len_N ss < 134217728 -> Forall attrs_sane ss -> Forall bytes_ok ss ->
+     NoDup (map e_sfn es) ->
+     rename_in_dir upper oem k free ss src dst = (Ok tt, ss') ->
+     ss' = ss \/
+     exists e ne es',
+       In e es /\ dir_scan ss' 0 [] fat32 = (es', ls, []) /\
+       e_lfn ne = (if is_dot_name dst then [] else utf16_encode dst) /\ e_lfn_ok ne = true /\
+       sfn_legal_b (e_sfn ne) = true /\ ~ In (e_sfn ne) (map e_sfn es) /\
+       e_attr ne = e_attr e mod 64 /\ e_size ne = e_size e /\ e_cluster ne = e_cluster e /\
        forall key, dir_map es' key =
-         if list_eqb (se_name se) key then Some ne else if list_eqb (e_sfn e) key then None else dir_map es key).
+         if list_eqb (e_sfn ne) key then Some ne else if list_eqb (e_sfn e) key then None else dir_map es key).
 Proof. exact dir_refines_map. Qed.
+Theorem C01_remove_entry_insane_refuted :
+  exists ss name ss' es ls,
+    dir_scan ss 0 [] false = (es, ls, []) /\ ls <> [] /\
+    remove_entry upper_ascii oem_decode_lossy ss name false = (Ok tt, ss') /\
+    dir_scan ss' 0 [] false = ([], [], []) /\ ~ Forall attrs_sane ss.
+Proof. exact remove_entry_insane_refuted. Qed.
 (* the library's rename_in_dir on the example directory: "b" -> "hello world.TXT" is refused (exists under another case),
    "b" -> "B" is a no-op (same entry), "b" -> "c" moves the entry in the map *)
 Example C01_rename_ex :
@@ -129,13 +152,24 @@ Example C01_rename_ex :
    fst r = Ok tt /\ map e_lfn (fst (fst (dir_scan (snd r) 0 [] false))) = [ex_name1; [99]] /\
    map e_sfn (fst (fst (dir_scan (snd r) 0 [] false))) = [ex_alias1; [67; 32; 32; 32; 32; 32; 32; 32; 32; 32; 32]] /\
    snd (dir_scan (snd r) 0 [] false) = []) /\
-  fst (rename_in_dir upper_ascii oem_decode_lossy FixedRoot 0 ex_dir2 [120] [99]) = Err ENotFound.
-Proof. vm_compute. repeat split. Qed.
+  fst (rename_in_dir upper_ascii oem_decode_lossy FixedRoot 0 ex_dir2 [120] [99]) = Err ENotFound /\
+  Forall attrs_sane ex_dir2 /\ Forall bytes_ok ex_dir2 /\ NoDup (map e_sfn (fst (fst (dir_scan ex_dir2 0 [] false)))) /\
+  (let r := remove_entry upper_ascii oem_decode_lossy ex_dir2 [72; 69; 76; 76; 79; 87; 126; 49; 46; 116; 120; 116] false in
+   fst r = Ok tt /\ map e_lfn (fst (fst (dir_scan (snd r) 0 [] false))) = [[98]]).
+Proof.
+  split; [vm_compute; reflexivity|]. split; [vm_compute; reflexivity|]. split; [vm_compute; repeat split|].
+  split; [vm_compute; reflexivity|]. split; [repeat constructor|]. split.
+  { apply bytes_ok_b. vm_compute. reflexivity. }
+  split; [|vm_compute; split; reflexivity].
+  vm_compute. constructor; [|constructor; [|constructor]]; cbn [In]; [intros [C|[]]; discriminate|intros []].
+Qed.
 
 Print Assumptions C01_image_write_frame.
 Print Assumptions C01_find_free_entries_spec.
 Print Assumptions C01_failed_write_unchanged_partial.
 Print Assumptions C01_failed_write_unchanged.
 Print Assumptions C01_failed_write_unchanged_refuted.
+Print Assumptions C01_rename_failed_unchanged_refuted.
 Print Assumptions C01_create_entry_refines.
 Print Assumptions C01_dir_refines_map.
+Print Assumptions C01_remove_entry_insane_refuted.
